@@ -4449,38 +4449,25 @@ impl Lexer<'_> {
                 // We know that the following WS may not be significant
                 self.push_mode(LexerMode::WsOrCStyleCommentOnly);
             }
-            '%' if is_valid_unicode_sas_name_start(self.cursor.peek_next()) => {
+            '%' if is_valid_unicode_sas_name_start(self.cursor.peek_next()) && {
+                // Only %while/%until change the shape of the statement. A macro call that
+                // creates the iteration variable name (%do %mcall_that_creates_iter_var=...)
+                // is lexed by the name expression mode below, like any other part of the name,
+                // so that the modes (and the checkpoint) of the call stay on top of it
+                let mut la_cursor = self.cursor.clone();
+                la_cursor.advance();
+                matches!(
+                    lex_macro_call_stat_or_label(&mut la_cursor),
+                    Ok((
+                        TokenTypeMacroCallOrStat::KwmUntil | TokenTypeMacroCallOrStat::KwmWhile,
+                        _
+                    ))
+                )
+            } =>
+            {
+                // %do %while/until: the keyword lexer sets the mode stack
                 self.start_token();
                 self.lex_macro_identifier(false);
-
-                // This may be both %do %while/until or %do %mcall_that_creates_iter_var
-                // so we need to fork on the type of the last token. For %while/until
-                // we do nothing because lexer above has already set the mode stack,
-                // for the macro call we do the same as for all other symbols - push the,
-                // name expression mode, except that we know we've found at least the start
-                if self.buffer.last_token_info().is_some_and(|ti| {
-                    ![TokenType::KwmUntil, TokenType::KwmWhile].contains(&ti.token_type)
-                }) {
-                    self.push_mode(LexerMode::MacroEval {
-                        macro_eval_flags: MacroEvalExprFlags::new(
-                            MacroEvalNumericMode::Integer,
-                            MacroEvalNextArgumentMode::None,
-                            true,
-                            true,
-                            false, // doesn't matter really
-                        ),
-                        pnl: 0,
-                    });
-                    self.push_mode(LexerMode::WsOrCStyleCommentOnly);
-                    self.push_mode(LexerMode::ExpectSymbol(
-                        TokenType::ASSIGN,
-                        TokenChannel::DEFAULT,
-                    ));
-                    self.push_mode(LexerMode::WsOrCStyleCommentOnly);
-                    // Note the difference from below. We already lexed one part of the var name expr,
-                    // so we pass `true` and do not pass error, since it won't ever be emitted anyway
-                    self.push_mode(LexerMode::MacroNameExpr(true, None));
-                }
             }
             _ => {
                 // %do var=...; A mix of %let and %if expression
